@@ -31,8 +31,9 @@ CONSTANTS
   Depth         \* 0 = unbounded; otherwise a bound on the number of steps
 
 Crits ==
-  CASE CritSel = "all"  -> {NoCrit, [kind |-> "min", v |-> 7], [kind |-> "window", v |-> 3],
-                            [kind |-> "years", v |-> 1]}
+  \* minimum start dates after, exactly at (tick 5) and before (tick 4) the Unix epoch
+  CASE CritSel = "all"  -> {NoCrit, [kind |-> "min", v |-> 7], [kind |-> "min", v |-> 5], [kind |-> "min", v |-> 4],
+                            [kind |-> "window", v |-> 3], [kind |-> "years", v |-> 1]}
     [] CritSel = "min"  -> {NoCrit, [kind |-> "min", v |-> 5], [kind |-> "min", v |-> 7]}
     [] OTHER            -> {NoCrit}
 
